@@ -367,7 +367,7 @@ class DQNFamily(Adapter):
         c = run.plan["cfg"]
         e = run.plan["env"]
         q = MLP(e["obs_dim"], e["discrete"], [c["hidden"]], "relu", nnx.Rngs(run.plan["seed"]))
-        opt = nnx.Optimizer(q, optax.adam(1e-2), wrt=nnx.Param)
+        opt = nnx.Optimizer(q, optax.adam(c.get("lr", 1e-2)), wrt=nnx.Param)
         comps = {"q": q, "q_opt": opt}
         if run.plan.get("supply_targets") and self.name != "dqn":
             comps["q_target"] = nnx.clone(q)
